@@ -11,7 +11,7 @@ def _c12_nontrivial(cf):
 
 CONFIG = dict(
     correspondence="GoImap.ClientSM (Model/ClientSM.lean) vs imapclient.Client driven by a scripted server over an in-memory connection: after every step of the transcript (command submission, continuation request, tagged reply, untagged response, BYE+close) Client.State(), Client.Mailbox() (name, NumMessages, Flags, PermanentFlags), the commands whose Wait/Collect returned in that step with status class, response code and the data they delivered, the calls of the unilateral data handler, and the tag seen on the wire",
-    rule="random transcripts: greeting OK/PREAUTH/BYE with/without [CAPABILITY]; 0-12 (sometimes 95-105) warm-up commands so that tags cross digit-width boundaries; 1-4 pipelined commands from NOOP, CREATE, LOGIN (quoted and with a synchronising literal), SELECT/EXAMINE, UNSELECT/CLOSE, LIST, STATUS, SEARCH/UID SEARCH (plain and RETURN (ALL)), FETCH/UID FETCH/STORE/UID STORE, EXPUNGE, CAPABILITY, APPEND; answers in every order, every OK/NO/BAD assignment with and without response codes, literals accepted (+) or refused (tagged NO/BAD); command data interleaved with unsolicited EXISTS/EXPUNGE/FLAGS/PERMANENTFLAGS/FETCH/RECENT/[CLOSED]/BYE/untagged OK-NO-BAD; re-SELECT with and without [CLOSED]; a closing NOOP that must complete OK while the connection lives; ~4% deliberately non-conformant tails (duplicate reply, unknown tag, stray +) on which only the model is compared; plus a corpus of the repaired defects. Non-trivial = at least two commands besides the closing NOOP; distinct = different case line",
+    rule="random transcripts: greeting OK/PREAUTH/BYE with/without [CAPABILITY]; 0-12 (sometimes 95-105) warm-up commands so that tags cross digit-width boundaries; 1-4 pipelined commands from NOOP, CREATE, LOGIN (quoted and with a synchronising literal), SELECT/EXAMINE, UNSELECT/CLOSE, LIST, STATUS, SEARCH/UID SEARCH (plain and RETURN (ALL)), FETCH/UID FETCH/STORE/UID STORE (also .SILENT, with and without UNCHANGEDSINCE, answered with FETCH data for the stored messages), EXPUNGE, CAPABILITY, APPEND; answers in every order, every OK/NO/BAD assignment with and without response codes, literals accepted (+) or refused (tagged NO/BAD); command data interleaved with unsolicited EXISTS/EXPUNGE/FLAGS/PERMANENTFLAGS/FETCH/RECENT/[CLOSED]/BYE/untagged OK-NO-BAD; re-SELECT with and without [CLOSED]; a closing NOOP that must complete OK while the connection lives; ~4% deliberately non-conformant tails (duplicate reply, unknown tag, stray +) on which only the model is compared; plus a corpus of the repaired defects. Non-trivial = at least two commands besides the closing NOOP; distinct = different case line",
     nontrivial=_c12_nontrivial,
     trusted=["the scripted server's rendering of responses and the client's response parser (C03/C11) carry the structured events to the code under test",
              "the barrier: the client's reader goroutine is blocked in Read with every written byte consumed (or the client closed the connection), plus the return of the answered command's Wait"],
